@@ -124,6 +124,88 @@ theorem py_eq_c (fn : Nat) (h : fn < hyperframe) :
   rw [decomp_components fn h]
   simp only [pyFn2GsmTime]
 
+/-- A broken-down time as the property means it: T1 < 2048, T2 < 26, T3 < 51 (TC is not an input of
+`gsm_gsmtime2fn`). -/
+def WfTime (t : GsmTime) : Prop := t.t1 < 2048 ∧ t.t2 < 26 ∧ t.t3 < 51
+
+/-- The converse round trip (TS 45.002 §4.3.3): for EVERY well-formed (T1, T2, T3) — not only those that
+came out of a decomposition — recomposition yields a frame number of the hyperframe whose decomposition
+gives T1, T2, T3 back. With `decomp_recomp` this makes the two functions mutually inverse bijections between
+`[0, hyperframe)` and the well-formed triples. -/
+theorem recomp_decomp (t : GsmTime) (h : WfTime t) :
+    cGsmTime2Fn t < hyperframe ∧
+    (cFn2GsmTime (cGsmTime2Fn t)).t1 = t.t1 ∧
+    (cFn2GsmTime (cGsmTime2Fn t)).t2 = t.t2 ∧
+    (cFn2GsmTime (cGsmTime2Fn t)).t3 = t.t3 := by
+  obtain ⟨h1, h2, h3⟩ := h
+  simp only [hyperframe]
+  have key : cGsmTime2Fn t = 51 * ((t.t3 + 26 - t.t2) % 26) + t.t3 + 1326 * t.t1 := by
+    simp only [cGsmTime2Fn]
+    rw [tmod_nat _ _ (by omega)]
+    simp only [Int.ofNat_eq_natCast]
+    omega
+  rw [key]
+  generalize hd : (t.t3 + 26 - t.t2) % 26 = d
+  have hdl : d < 26 := by omega
+  have hcong : (d + t.t2) % 26 = t.t3 % 26 := by omega
+  generalize hF : 51 * d + t.t3 + 1326 * t.t1 = F
+  have hlt : F < 2715648 := by omega
+  have e0 : F % 4294967296 = F := by omega
+  have e1 : F / (26 * 51) = t.t1 := by omega
+  have e3 : F % 51 = t.t3 := by omega
+  have e2 : F % 26 = t.t2 := by omega
+  simp only [cFn2GsmTime, u8, u16, u32, e0, e1, e2, e3]
+  omega
+
+/-- The decomposition is injective on the hyperframe: (T1, T2, T3) identify the frame. -/
+theorem decomp_injective (a b : Nat) (ha : a < hyperframe) (hb : b < hyperframe)
+    (h1 : (cFn2GsmTime a).t1 = (cFn2GsmTime b).t1) (h2 : (cFn2GsmTime a).t2 = (cFn2GsmTime b).t2)
+    (h3 : (cFn2GsmTime a).t3 = (cFn2GsmTime b).t3) : a = b := by
+  have ea := decomp_recomp a ha
+  have eb := decomp_recomp b hb
+  have : cGsmTime2Fn (cFn2GsmTime a) = cGsmTime2Fn (cFn2GsmTime b) := by
+    simp only [cGsmTime2Fn, h1, h2, h3]
+  omega
+
+/-- A decomposed frame number is well-formed (so `recomp_decomp` is not vacuous on reachable times). -/
+theorem decomp_wf (fn : Nat) (h : fn < hyperframe) : WfTime (cFn2GsmTime fn) := by
+  rw [decomp_components fn h]
+  simp only [hyperframe] at h
+  simp only [WfTime]
+  omega
+
+/-- History level: the running time kept by `l1s_time_inc(.., 1)` once per frame never drifts from the
+frame count, however long it runs (any number of steps, through any number of hyperframe wraps). -/
+theorem time_inc_iterate (fn n : Nat) (h : fn < hyperframe) :
+    Nat.repeat (fun t => cTimeInc t 1) n (cFn2GsmTime fn) = cFn2GsmTime ((fn + n) % hyperframe) := by
+  induction n with
+  | zero => simp only [Nat.repeat, Nat.add_zero, Nat.mod_eq_of_lt h]
+  | succ n ih =>
+    simp only [Nat.repeat]
+    rw [ih, time_inc_one _ (Nat.mod_lt _ (by decide))]
+    congr 1
+    simp only [hyperframe]
+    omega
+
+/-- Any mixture of steps (deltas below the hyperframe, the incremental and the recomputing path in any
+order) lands on the decomposition of the summed frame number. -/
+theorem time_inc_history (fn : Nat) (ds : List Nat) (h : fn < hyperframe) (hd : ∀ d ∈ ds, d < hyperframe) :
+    ds.foldl cTimeInc (cFn2GsmTime fn) = cFn2GsmTime ((fn + ds.sum) % hyperframe) := by
+  induction ds generalizing fn with
+  | nil => simp only [List.foldl_nil, List.sum_nil, Nat.add_zero, Nat.mod_eq_of_lt h]
+  | cons d ds ih =>
+    rw [List.foldl_cons, time_inc fn d h (hd d (List.mem_cons_self ..)),
+        ih _ (Nat.mod_lt _ (by decide)) (fun x hx => hd x (List.mem_cons_of_mem _ hx))]
+    congr 1
+    simp only [List.sum_cons, hyperframe]
+    omega
+
+/-- Non-vacuity of the converse round trip at a triple that no decomposition of a small frame number yields,
+and of the history theorem across the wrap. -/
+example : WfTime ⟨0, 2047, 25, 50, 0⟩ ∧ cGsmTime2Fn ⟨0, 2047, 25, 50, 0⟩ = 2715647 ∧
+    [1, 2715647, 1, 5].foldl cTimeInc (cFn2GsmTime 2715646) = cFn2GsmTime 4 := by
+  refine ⟨by simp only [WfTime]; omega, by decide +kernel, by decide +kernel⟩
+
 /-- Non-vacuity: the carry points and the wrap are inside the hypotheses. -/
 example : (2715647 < hyperframe) ∧ cTimeInc (cFn2GsmTime 2715647) 1 = ⟨0, 0, 0, 0, 0⟩ ∧
     cTimeInc (cFn2GsmTime 1325) 1 = ⟨1326, 1, 0, 0, 2⟩ := by decide +kernel
